@@ -148,9 +148,10 @@ func checkC08(c *chk.Ctx) {
 			sh.path = fmt.Sprintf("/s%d/{p}", sh.idx)
 		case "deep":
 			fld("p", 1, cc.Kind, abs.Ann{})
-			fld("p2", 2, "string", abs.Ann{})
-			sh.pvars = []string{"p", "p2"}
-			sh.path = fmt.Sprintf("/s%d/{p}/x/{p2}", sh.idx)
+			// (the second variable's name has an underscore before a digit: its JSON name, p2, is not its proto name)
+			fld("p_2", 2, "string", abs.Ann{})
+			sh.pvars = []string{"p", "p_2"}
+			sh.path = fmt.Sprintf("/s%d/{p}/x/{p_2}", sh.idx)
 		}
 		if sh.query == nil {
 			sh.query = []map[string]any{}
@@ -307,7 +308,7 @@ func checkC08(c *chk.Ctx) {
 			l.Append(protoreflect.ValueOfString("a&b=c d"))
 			m.Set(fds.ByName("ropt"), protoreflect.ValueOfInt32(map[bool]int32{false: 12, true: 0}[cc.Cls == "zero"]))
 		}
-		if fd := fds.ByName("p2"); fd != nil {
+		if fd := fds.ByName("p_2"); fd != nil {
 			m.Set(fd, protoreflect.ValueOfString("second seg"))
 		}
 		if fd := fds.ByName("b"); fd != nil {
@@ -605,9 +606,13 @@ func checkC08(c *chk.Ctx) {
 					cp[k] = v
 				}
 				for _, pv := range p.sh.pvars {
-					if sv, ok := cp[pv].(string); ok {
+					key := pv // the handler's argument is keyed by JSON names
+					if fd := md.Fields().ByName(protoreflect.Name(pv)); fd != nil {
+						key = fd.JSONName()
+					}
+					if sv, ok := cp[key].(string); ok {
 						rawPath[pv] = sv
-						delete(cp, pv)
+						delete(cp, key)
 					}
 				}
 				argObj = cp
